@@ -107,6 +107,21 @@ CHECKS["C14"] = dict(
     note="facts carry no attempt number (bag semantics); plain-token names in this round; parsers trusted; simulation sampling",
 )
 
+CHECKS["C19"] = dict(
+    engine="pure-replay",
+    technique="TLA+ description of a compiled zoo of #[given]/#[when]/#[then] functions (Codegen.tla: descriptors, match "
+              "relation, Dispatch) sanity-checked by TLC; every (keyword, text) query is dispatched through the real "
+              "World::collection() and executed; TLC compares the outcomes (Trace_Codegen.tla)",
+    level="exploration",
+    text="C19 quantifies over programs; a finite zoo (sync/async, unit/Result, typed args with parse failures, slice, "
+         "#[step], literal / regex / Cucumber-expression matchers, a custom Parameter, two attributes on one fn, the same "
+         "literal under two keywords, an optional capture group) is compiled into the harness; 78 (keyword, text) queries "
+         "including near-miss literals and wrong keywords are dispatched and the result (not found / invoked with which "
+         "arguments / failed) compared with the TLA+ description.",
+    design_ref="DESIGN.md §3 C19",
+    note="finite zoo only; the match column of Codegen.tla is hand-derived attribute semantics; compile-fail cases out of scope",
+)
+
 RUNNER_TECH = ("TLA+ model of the executor design (Runner.tla) model-checked by TLC against the property "
                "monitor RunnerObs.tla; the real runner::Basic driven through a gate-controlled test double; "
                "its hooked linearization points validated by TLC against the same monitor (Trace_Runner.tla)")
